@@ -22,8 +22,9 @@ EXTERNAL = {'time.time': 'int'}
 class ClassSet:
     """One of a finite set of classes (which one is not tracked)."""
 
-    def __init__(self, cs):
-        self.classes = list(dict.fromkeys(cs))
+    def __init__(self, cs, conds=None):
+        self.classes = list(cs) if conds is not None else list(dict.fromkeys(cs))
+        self.conds = conds          # parallel list of z3 conditions (exactly one holds): which class it is
 
     def __repr__(self):
         return 'ClassSet(%s)' % ', '.join(c.__name__ for c in self.classes)
@@ -155,7 +156,15 @@ class Verifier(Engine):
                     vals.append(d.obj)
                 if not vals or not all(inspect.isclass(v) for v in vals):
                     raise OutOfSubset('dict.get on a constant dict whose values are not classes')
-                return VPy(ClassSet(vals))
+                # which value it is follows the key: key is k_i  ->  the i-th class; no key matches -> the default
+                try:
+                    hits = [self.ev.identical(st, args[0], from_py(k_)) for k_ in fv.d.keys()]
+                    conds = list(hits)
+                    if len(args) > 1:
+                        conds.append(z3.Not(z3.Or(hits)))
+                    return VPy(ClassSet(vals, conds))
+                except OutOfSubset:
+                    return VPy(ClassSet(vals))
             if k == 'lambda' and st.spec:
                 return self.call_lambda(st, fv, args)
             raise OutOfSubset('call of %s' % k)
@@ -356,6 +365,10 @@ class Verifier(Engine):
         for k in classes.table().values():
             if all(issubclass(c, k) for c in cs.classes):
                 st.pc.append(z3.Function('$isinst_' + k.__name__, I, B)(r))
+            elif cs.conds is not None:
+                # the class follows the lookup key: an instance of k exactly when the chosen class derives from k
+                st.pc.append(z3.Function('$isinst_' + k.__name__, I, B)(r) ==
+                             z3.Or([c_ for c_, cl in zip(cs.conds, cs.classes) if issubclass(cl, k)] or [z3.BoolVal(False)]))
         self.call_contract(st, inits.pop(), [ref] + args, kwargs)
         return ref
 
